@@ -103,8 +103,191 @@ let run_seq (ops : op list) : string =
   end;
   Buffer.contents b
 
+(* ---------------------------------------------------------------- histories with Join
+   join <np> <step> ...   steps as above with the promise index after '@':
+     F@k:<caps>:-  R@k:-  S@k:<path>:<g>  V@k:<path>:<g>  C@k:<path>:<slot>  L@k  W@k  J@k:<parent>
+     K:<slot>:<g>  Q:<slot>:<g>  U:<n> *)
+let jvariant = ref jfixed
+let () =
+  let rec go = function
+    | "-jvariant" :: v :: r ->
+      jvariant := (match v with "seed3" -> jseed3 | "f11c" -> jf11c | _ -> jfixed); go r
+    | _ :: r -> go r
+    | [] -> () in
+  go (Array.to_list Sys.argv)
+
+let jop_of (s : string) : jop =
+  match String.split_on_char ':' s with
+  | [] -> failwith "empty"
+  | hd :: rest ->
+    let kind, k = match String.split_on_char '@' hd with
+      | [a; b] -> a, nat_of_int (int_of_string b)
+      | [a] -> a, nat_of_int 0
+      | _ -> failwith ("bad step " ^ s) in
+    (match kind, rest with
+     | "F", [caps; _] -> JFulfill (k, caps_of caps)
+     | "R", [_] -> JReject k
+     | ("S" | "V"), [p; g] -> JSend (k, path_of p, g_of g)
+     | "C", [p; sl] -> JClient (k, path_of p, z_of_int (int_of_string sl))
+     | ("K" | "Q"), [sl; g] -> JCall (z_of_int (int_of_string sl), g_of g)
+     | "L", [] -> JRelease k
+     | "W", [] -> JWait k
+     | "J", [par] -> JJoin (k, nat_of_int (int_of_string par))
+     | "U", [n] -> JUngate (nat_of_int (int_of_string n))
+     | _ -> failwith ("bad step " ^ s))
+
+let run_join (np : int) (ops : jop list) : string =
+  let n = List.length ops in
+  let b = Buffer.create 256 in
+  let c = ref (jinit (nat_of_int np) ops) in
+  let hang = ref false in
+  let i = ref 0 in
+  while !i < n && not !hang do
+    let before = !c in
+    (match jquiesce !jvariant fuel before (nat_of_int (!i + 1)) with
+     | None -> Buffer.add_string b "FUEL"; hang := true
+     | Some c' ->
+       c := c';
+       let items = ref [] in
+       let ne = List.length c'.jevents - List.length before.jevents in
+       List.iter (function
+           | EDeliver (t, d) -> items := (int_of_nat t, 1, Printf.sprintf "d%d=%s" (int_of_nat t) (dest_s d)) :: !items
+           | _ -> ()) (take ne c'.jevents);
+       List.iteri (fun j th ->
+           if j <= !i && jfinished c' (nat_of_int j) && not (jfinished before (nat_of_int j)) then
+             items := (j, 0, Printf.sprintf "c%d=%s" j (out_s th.j_out)) :: !items) c'.jthreads;
+       let items = List.sort compare !items in
+       let stuck_on_mu = ref false in
+       for j = 0 to !i do
+         if jmutex_blocked c' (nat_of_int j) then stuck_on_mu := true
+       done;
+       if !stuck_on_mu then (Buffer.add_string b " HANG"; hang := true)
+       else begin
+         if !i > 0 then Buffer.add_char b '|';
+         Buffer.add_string b (string_of_int !i ^ ":");
+         Buffer.add_string b (String.concat "," (List.map (fun (_, _, s) -> s) items))
+       end);
+    incr i
+  done;
+  if not !hang then begin
+    let st = ref [] in
+    for j = n - 1 downto 0 do if not (jfinished !c (nat_of_int j)) then st := string_of_int j :: !st done;
+    Buffer.add_string b (" stuck=" ^ (if !st = [] then "-" else String.concat "," !st));
+    Buffer.add_string b (if all_mu_free !c then " mu=free" else " mu=held")
+  end;
+  Buffer.contents b
+
+(* ---------------------------------------------------------------- concurrent launch groups
+   par <np> <step> ... { <step> ... } <step> ... !<observation of the implementation, ' ' -> '~'>
+   The steps between the braces are launched together; the model explores every interleaving of the launched
+   threads' sections up to quiescence and continues the rest of the history from every quiescent configuration
+   reached.  Printed: the implementation's observation if it is one of the outcomes the model allows, otherwise
+   the first allowed outcome (so the lines differ). *)
+let jitems before after hi =
+  let items = ref [] in
+  let ne = List.length after.jevents - List.length before.jevents in
+  List.iter (function
+      | EDeliver (t, d) -> items := (int_of_nat t, 1, Printf.sprintf "d%d=%s" (int_of_nat t) (dest_s d)) :: !items
+      | _ -> ()) (take ne after.jevents);
+  List.iteri (fun j th ->
+      if j <= hi && jfinished after (nat_of_int j) && not (jfinished before (nat_of_int j)) then
+        items := (j, 0, Printf.sprintf "c%d=%s" j (out_s th.j_out)) :: !items) after.jthreads;
+  String.concat "," (List.map (fun (_, _, s) -> s) (List.sort compare !items))
+
+let jblocked c hi =
+  let r = ref false in
+  for j = 0 to hi do if jmutex_blocked c (nat_of_int j) then r := true done; !r
+
+module CH = Hashtbl.Make (struct
+    type t = jconfig
+    let equal = (=)
+    let hash = Hashtbl.hash_param 400 600
+  end)
+
+let explore c hi : jconfig list =
+  let seen = CH.create 256 in
+  let res = ref [] in
+  let budget = ref 300000 in
+  let rec go c =
+    if !budget > 0 && not (CH.mem seen c) then begin
+      decr budget;
+      CH.add seen c ();
+      let en = List.filter (fun t -> jenabled !jvariant c (nat_of_int t)) (List.init (hi + 1) (fun x -> x)) in
+      if en = [] then res := c :: !res
+      else List.iter (fun t -> match jstep !jvariant c (nat_of_int t) with Some c' -> go c' | None -> ()) en
+    end in
+  go c;
+  if !budget <= 0 then failwith "exploration budget";
+  !res
+
+let run_par ?(full = true) (np : int) (toks : string list) : string list =
+  (* split into prefix, group, suffix *)
+  let rec split acc = function
+    | "{" :: r -> (List.rev acc, r) | x :: r -> split (x :: acc) r | [] -> (List.rev acc, []) in
+  let pre, rest = split [] toks in
+  let rec split2 acc = function
+    | "}" :: r -> (List.rev acc, r) | x :: r -> split2 (x :: acc) r | [] -> (List.rev acc, []) in
+  let grp, suf = split2 [] rest in
+  let ops = List.map jop_of (pre @ grp @ suf) in
+  let n = List.length ops in
+  let g0 = List.length pre and g1 = List.length pre + List.length grp in
+  let finish b c =
+    let st = ref [] in
+    for j = n - 1 downto 0 do if not (jfinished c (nat_of_int j)) then st := string_of_int j :: !st done;
+    b ^ " stuck=" ^ (if !st = [] then "-" else String.concat "," !st) ^ (if all_mu_free c then " mu=free" else " mu=held") in
+  (* sequenced steps from index i, accumulated text b *)
+  let rec seq i b c : string list =
+    if i >= n then [finish b c]
+    else if i = g0 && g1 > g0 then begin
+      let outs = explore c (g1 - 1) in
+      List.concat_map (fun c' ->
+          if jblocked c' (g1 - 1) then [b ^ " HANG"]
+          else seq g1 (b ^ (if i > 0 then "|" else "") ^ string_of_int i ^ ":" ^ jitems c c' (g1 - 1)) c') outs
+    end else
+      (* a single launch: the threads it wakes may still run in any order (explored when [full]) *)
+      let outs =
+        if full then explore c i
+        else match jquiesce !jvariant fuel c (nat_of_int (i + 1)) with Some c' -> [c'] | None -> [] in
+      List.concat_map (fun c' ->
+          if jblocked c' i then [b ^ " HANG"]
+          else seq (i + 1) (b ^ (if i > 0 then "|" else "") ^ string_of_int i ^ ":" ^ jitems c c' i) c') outs in
+  List.sort_uniq compare (seq 0 "" (jinit (nat_of_int np) ops))
+
 let () = iter_lines (fun line ->
   match split_ws line with
+  | "par" :: np :: toks ->
+    let impl, toks = List.partition (fun x -> String.length x > 0 && x.[0] = '!') toks in
+    let impl = match impl with
+      | x :: _ -> String.map (fun ch -> if ch = '~' then ' ' else ch) (String.sub x 1 (String.length x - 1))
+      | [] -> "" in
+    print_endline (try
+                     let quick = run_par ~full:false (int_of_string np) toks in
+                     (* exploration over budget (many goroutines woken at once): inconclusive, the observation
+                        is accepted and counted on stderr *)
+                     let allowed = if List.mem impl quick then quick
+                       else (try run_par ~full:true (int_of_string np) toks
+                             with Failure "exploration budget" -> (prerr_endline "inconclusive: exploration budget"; [impl])) in
+                     if List.mem impl allowed then impl
+                     else (match allowed with a :: _ -> a ^ " [" ^ string_of_int (List.length allowed) ^ " outcomes allowed]" | [] -> "none")
+                   with Failure m -> "bad-case " ^ m)
+  | "join" :: np :: toks when List.exists (fun x -> String.length x > 0 && x.[0] = '!') toks ->
+    (* sequenced launches; what a launch wakes may run in any order: same treatment as "par" *)
+    let impl, toks = List.partition (fun x -> String.length x > 0 && x.[0] = '!') toks in
+    let impl = match impl with
+      | x :: _ -> String.map (fun ch -> if ch = '~' then ' ' else ch) (String.sub x 1 (String.length x - 1))
+      | [] -> "" in
+    print_endline (try
+                     let quick = run_par ~full:false (int_of_string np) toks in
+                     (* exploration over budget (many goroutines woken at once): inconclusive, the observation
+                        is accepted and counted on stderr *)
+                     let allowed = if List.mem impl quick then quick
+                       else (try run_par ~full:true (int_of_string np) toks
+                             with Failure "exploration budget" -> (prerr_endline "inconclusive: exploration budget"; [impl])) in
+                     if List.mem impl allowed then impl
+                     else (match allowed with a :: _ -> a ^ " [" ^ string_of_int (List.length allowed) ^ " outcomes allowed]" | [] -> "none")
+                   with Failure m -> "bad-case " ^ m)
+  | "join" :: np :: steps ->
+    print_endline (try run_join (int_of_string np) (List.map jop_of steps) with Failure m -> "bad-case " ^ m)
   | "seq" :: steps -> print_endline (try run_seq (List.map op_of steps) with Failure m -> "bad-case " ^ m)
   | [] -> ()
   | _ -> print_endline "bad-case")
